@@ -291,6 +291,8 @@ class Gen(object):
             kinds += ['callable', 'callable', 'callable']
         if getattr(self, 'events', False):
             kinds += ['event', 'event']
+        if getattr(self, 'ports', False):
+            kinds += ['port', 'port']
         k = r.choice(kinds)
         if k == 'assign':
             ty = r.choice(['int', 'int', 'bool', 'str'])
@@ -440,6 +442,8 @@ class Gen(object):
             return self.callable_stmt()
         if k == 'event':
             return self.event_stmt()
+        if k == 'port':
+            return self.port_stmt()
         return None
 
     # name-resolved invocations of the callables every C05/C06 model declares (see vt/callgen.py, vt/adapters/prebuildgen.py)
@@ -692,6 +696,38 @@ class Gen(object):
             return {'t': 'create_ev_class', 'v': evvar(), 'ev': ev, 'k': c, 'word': 'creator'}
         ev = spec(self.CLASS_EVENTS, 'A')
         return {'t': 'create_ev_class', 'v': evvar(), 'ev': ev, 'k': 'A', 'word': 'class'}
+
+    # the ports of the component the corpus model lives in (vt/adapters/prebuildgen.py): Req requires and Prov provides the
+    # interface Iface with the operations op1(a, b) -> integer, op0() and the signals sig1(n), sig0()
+    PORT_NAMES = ('Req', 'Prov')
+    PORT_OPS = {'op1': [('a', 'int'), ('b', 'str')], 'op0': []}
+    PORT_SIGS = {'sig1': [('n', 'int')], 'sig0': []}
+
+    def port_stmt(self):
+        """messages across a port: a signal or an operation as a statement (with or without the word send), the value of an
+        operation assigned (send x = ...) or used inside an expression, a signal sent to a target (send P::s(..) to x)"""
+        r = self.rnd
+
+        def msg(table, name, kind):
+            items = list(table[name])
+            r.shuffle(items)
+            return {'t': 'icall', 'kind': kind, 'ns': r.choice(self.PORT_NAMES), 'n': name,
+                    'ps': [{'n': n, 'e': self.maybe_paren(self.expr(ty, self.maxdepth - 1))} for n, ty in items]}
+        word = lambda: r.choice(['port', 'implicit'])
+        li = self.live_insts()
+        k = r.choice(['sig_stmt', 'sig_stmt', 'op_stmt', 'op_assign', 'op_assign', 'op_value'] + (['send_to', 'send_to'] if li else []))
+        if k == 'sig_stmt':
+            return {'t': 'call', 'inv': msg(self.PORT_SIGS, r.choice(sorted(self.PORT_SIGS)), word())}
+        if k == 'op_stmt':
+            return {'t': 'call', 'inv': msg(self.PORT_OPS, r.choice(sorted(self.PORT_OPS)), word())}
+        if k == 'op_assign':
+            e = msg(self.PORT_OPS, 'op1', word())
+            return Assign(V(self.fresh('int', 'po')), e)
+        if k == 'op_value':
+            e = Bin(r.choice(['+', '*', '-']), msg(self.PORT_OPS, 'op1', 'implicit'), I(r.randint(1, 3)))
+            return Assign(V(self.fresh('int', 'pw')), e)
+        m = msg(self.PORT_SIGS, r.choice(sorted(self.PORT_SIGS)), 'port')
+        return {'t': 'send_event', 'port': m['ns'], 'n': m['n'], 'ps': m['ps'], 'to': V(r.choice(li)[0])}
 
     def syntax_stmt(self):
         r = self.rnd
